@@ -21,6 +21,7 @@ def run(ctx):
     ss.begin_has_no_side_effect(ctx, 'C15')
     ss.merge_table(ctx, 'C15')
     ss.find_item_table(ctx, 'C15')
+    ss.log_writes_only_when_active(ctx, 'C15')
     ss.write_apis_unconditional(ctx, 'C15')
     # a read inside a transaction must not put pending (uncommitted) data into the cache: it would survive a rollback
     ss.reads_fill_cache_from_db(ctx, 'C15')
